@@ -76,16 +76,12 @@ Proof.
   unfold apply, sc_constant, sc_rowf, matvec, vadd. cbn [a_mat a_bias map vzip]. rewrite dot_vzero. f_equal. ring.
 Qed.
 
-Lemma sc_subrow_vsub n l r : l <> r -> sc_subrow n l r = vsub (unitv n l) (unitv n r).
-Proof.
-  intros Hlr. unfold sc_subrow, unitv, vsub. rewrite vzip_map. apply map_ext. intros j.
-  destruct (Nat.eqb j r) eqn:E1, (Nat.eqb j l) eqn:E2; try ring.
-  apply Nat.eqb_eq in E1, E2. congruence.
-Qed.
-Lemma dot_subrow n l r x : (l < n)%nat -> (r < n)%nat -> l <> r ->
+Lemma sc_subrow_vsub n l r : sc_subrow n l r = vsub (unitv n l) (unitv n r).
+Proof. unfold sc_subrow, unitv, vsub. rewrite vzip_map. reflexivity. Qed.
+Lemma dot_subrow n l r x : (l < n)%nat -> (r < n)%nat ->
   dot (sc_subrow n l r) x = nth l x 0 - nth r x 0.
 Proof.
-  intros Hl Hr Hlr. rewrite sc_subrow_vsub by auto.
+  intros Hl Hr. rewrite sc_subrow_vsub.
   rewrite dot_vsub by (rewrite !length_unitv; auto). rewrite !dot_unitv by auto. reflexivity.
 Qed.
 
